@@ -1,10 +1,11 @@
 (* Correspondence for C01 (sequential and parallel execution return the same result).
    kind "pair": in = [src, steps, partitions], out = [seq outcome, par outcome] of the REAL
    pipeline (collect_seq and collect_par(threads, partitions) of the same program).
-   agree : each observed outcome is what the engine model predicts for that mode (exact sequence
-           when no step iterates a hash map, else modulo Canon.canon_rows);
-   prop  : the parallel outcome equals the sequential one (same class; rows as sequence for
-           hash-free programs, as canonical multiset otherwise), and neither run hangs.  Programs
+   agree : each observed outcome is what the engine model predicts for that mode (Canon.cmp_of:
+           exact sequence when no step iterates a hash map; else multiset of exactly compared
+           rows; nested lists as bags only when a list is itself built from a map's order);
+   prop  : the parallel outcome equals the sequential one (same class, same comparison mode),
+           and neither run hangs.  Programs
            with a non-element-wise batch function (rev / droplast per chunk) are legitimately
            partition dependent: prop is not claimed for them (agree still is).
    known : none (a program of the reorder class is mis-planned identically in both modes). *)
@@ -24,7 +25,7 @@ Definition check_C01 (kind : string) (input output : J) : verdict :=
             let prop :=
               not_hang oseq && not_hang opar &&
               (partition_dependent (steps_size steps) steps
-               || obs_agree (order_exact steps) oseq opar) in
+               || obs_agree (cmp_of steps) oseq opar) in
             ok_verdict agree prop
         | _, _ => malformed
         end
